@@ -241,6 +241,16 @@ Definition cfg_fuel (entries : list (str * N)) : nat := S (length (concat (map f
 (* serde_yml::from_str of the flat text + Cfg::new *)
 Definition cfg_new (entries : list (str * N)) : cfg :=
   compartmentalize (cfg_fuel entries) (Mapping (map (fun e => (fst e, Scalar (snd e))) entries)).
+(* an entry's value as the user writes it: a number, or a hand-nested one-level mapping of numbers
+   (`lan.alice: { mtu: 1500 }`, flow or block form) *)
+Inductive eval := VNum (v : N) | VMap (m : list (str * N)).
+Definition value_of (e : eval) : value :=
+  match e with
+  | VNum v => Scalar v
+  | VMap m => Mapping (map (fun x => (fst x, Scalar (snd x))) m)
+  end.
+Definition cfg_new_v (entries : list (str * eval)) : cfg :=
+  compartmentalize (S (length (concat (map fst entries)))) (Mapping (map (fun e => (fst e, value_of (snd e))) entries)).
 Definition capture_for (c : cfg) (path : list str) (st : store) : store :=
   update_from store s_set (length path) st c path.
 Definition capture_for_into (c : cfg) (path : list str) : store := capture_for c path [].
@@ -447,13 +457,26 @@ Definition dump (tag : N) (ps : store) : list N :=
   tag :: N.of_nat (length ps) :: flat_map (fun e => enc_str (fst e) ++ enc_entry (snd e)) (sort_props ps).
 
 (* ---------------- wire format ---------------- *)
-Inductive op := OEntry (k : str) (v : N) | OModule (p : str) | OLate (l : late) | OGroup (at_ : N).
+Inductive op := OEntry (k : str) (v : eval) | OModule (p : str) | OLate (l : late) | OGroup (at_ : N).
 
 Definition take1 (l : list N) : N * list N := match l with [] => (0, []) | x :: r => (x, r) end.
 
+(* `n (<sub-key> val)*n`, truncated at the end of input *)
+Fixpoint take_pairs (n : nat) (l : list N) : list (str * N) * list N :=
+  match n with
+  | O => ([], l)
+  | S n' => match l with
+            | [] => ([], [])
+            | _ => let '(k, r1) := take_lp l in let '(v, r2) := take1 r1 in
+                   let '(ps, r3) := take_pairs n' r2 in ((k, v) :: ps, r3)
+            end
+  end.
+
 Definition dec_op (l : list N) : option (op * list N) :=
   match l with
-  | 1 :: r => let '(k, r1) := take_lp r in let '(v, r2) := take1 r1 in Some (OEntry k v, r2)
+  | 1 :: r => let '(k, r1) := take_lp r in let '(v, r2) := take1 r1 in Some (OEntry k (VNum v), r2)
+  | 12 :: r => let '(k, r1) := take_lp r in let '(form, r2) := take1 r1 in let '(n, r3) := take1 r2 in
+               let '(ps, r4) := take_pairs (N.to_nat n) r3 in Some (OEntry k (VMap ps), r4)
   | 2 :: r => let '(p, r1) := take_lp r in Some (OModule p, r1)
   | 3 :: r => let '(m, r0) := take1 r in let '(n, r1) := take_lp r0 in let '(t, r2) := take1 r1 in
               Some (OLate (LTyped (TRead m n t)), r2)
@@ -492,11 +515,11 @@ Fixpoint nodupb (l : list str) : bool :=
   | x :: r => negb (existsb (str_eqb x) r) && nodupb r
   end.
 
-Definition entries_of (ops : list op) : list (str * N) :=
+Definition entries_of (ops : list op) : list (str * eval) :=
   flat_map (fun o => match o with OEntry k v => [(k, v)] | _ => [] end) ops.
 (* the entries are partitioned into separate includes: `7 at` closes the current one and opens the next,
    to be included once [at] modules exist (the first one uses the script's header) *)
-Fixpoint groups_of (ops : list op) (cur_at : N) (cur : list (str * N)) : list (N * list (str * N)) :=
+Fixpoint groups_of (ops : list op) (cur_at : N) (cur : list (str * eval)) : list (N * list (str * eval)) :=
   match ops with
   | [] => [(cur_at, cur)]
   | OEntry k v :: r => groups_of r cur_at (cur ++ [(k, v)])
@@ -516,13 +539,16 @@ Definition late_text (l : late) : str :=
   end.
 
 Definition valid_script (ops : list op) : bool :=
-  forallb (fun e => valid_text (fst e)) (entries_of ops) &&
+  forallb (fun e => valid_text (fst e) &&
+                    match snd e with VNum _ => true | VMap m => forallb (fun x => valid_text (fst x)) m end) (entries_of ops) &&
   forallb (fun p => valid_text p && negb (existsb is_nil (split_dot p))) (paths_of ops) &&
   nodupb (paths_of ops) &&
   forallb (fun l => valid_text (late_text l)) (lates_of ops).
 
 (* the YAML parser rejects a mapping with a repeated key *)
-Definition yaml_ok (entries : list (str * N)) : bool := nodupb (map fst entries).
+Definition yaml_ok (entries : list (str * eval)) : bool :=
+  nodupb (map fst entries) &&
+  forallb (fun e => match snd e with VNum _ => true | VMap m => nodupb (map fst m) end) entries.
 
 (* first dump, late operations, final dump *)
 Definition level_out (mods : list (list str * store)) (lates : list late) : list N :=
@@ -545,7 +571,7 @@ Definition run (input : list N) : list N :=
         let lates := lates_of ops in
         let n := N.of_nat (length paths) in
         (* include_cfg ignores a text the YAML parser rejects *)
-        let sched := flat_map (fun g => if yaml_ok (snd g) then [(N.to_nat (N.min (fst g) n), cfg_new (snd g))] else []) groups in
+        let sched := flat_map (fun g => if yaml_ok (snd g) then [(N.to_nat (N.min (fst g) n), cfg_new_v (snd g))] else []) groups in
         let flags := map (fun g => if yaml_ok (snd g) then 0 else 5) groups in
         let cs := map snd (time_order sched 0 (length paths)) in
         let s := build sim_new sched 0 paths in
